@@ -120,6 +120,8 @@ struct Mon {
     /// expected content per TOI: mode 'g' (genuine packets only: writes are a prefix, complete => equal),
     /// 'm' (payloads altered, MD5 announced and checked: complete => equal)
     expect: HashMap<u128, (char, Vec<u8>)>,
+    /// TOI reused for different content: (symbol length, OLD content); stale packets of the old content may still arrive
+    reuse: HashMap<u128, (usize, Vec<u8>)>,
 }
 
 type Shared = Rc<RefCell<Mon>>;
@@ -275,7 +277,16 @@ impl Mon {
                 }
             }
             if let Some((_, want)) = self.expect.get(&toi) {
-                if want != &written {
+                let mixed = match self.reuse.get(&toi) {
+                    Some((e, old)) => is_symbol_mix(&written, old, want, *e),
+                    None => false,
+                };
+                if want != &written && mixed {
+                    self.fail(
+                        "C03:toi-reuse-mixed-complete",
+                        format!("writer {}.{}: TOI reused for different content, complete with {} bytes every symbol of which is a symbol of the old or of the new content", toi, idx, written.len()),
+                    );
+                } else if want != &written {
                     let want_len = want.len();
                     self.fail(
                         "C03:complete-wrong-bytes",
@@ -330,7 +341,7 @@ impl ObjectWriter for Writer {
         if ok {
             m.writers[self.id].written.extend_from_slice(data);
             let bad = match m.expect.get(&toi) {
-                Some(('g', want)) => !want.starts_with(&m.writers[self.id].written),
+                Some(('g', want)) => !m.reuse.contains_key(&toi) && !want.starts_with(&m.writers[self.id].written),
                 _ => false,
             };
             if bad {
@@ -539,6 +550,18 @@ impl Inner {
                 }
             }
             "ct" | "zmap" if t.len() == 4 => "ok".to_string(),
+            "expect" if t.len() == 5 && t[3] == "r" => {
+                // `expect <toi> r <e>.<hex old content>`: the TOI was reused, stale packets of the OLD content follow; the expectation
+                // (new content) stays, a completed mixture of symbols of both contents is the narrow class C03:toi-reuse-mixed-complete
+                let mut it = t[4].splitn(2, '.');
+                match (t[2].parse::<u128>(), it.next().and_then(|e| e.parse::<usize>().ok()), it.next().and_then(unhex)) {
+                    (Ok(toi), Some(e), Some(old)) if e > 0 => {
+                        self.mon.borrow_mut().reuse.insert(toi, (e, old));
+                        "ok".to_string()
+                    }
+                    _ => "bad-op".to_string(),
+                }
+            }
             "expect" if t.len() == 5 => match (t[2].parse::<u128>(), t[3].chars().next(), unhex(t[4])) {
                 (Ok(toi), Some('x'), Some(_)) => {
                     // from here on the packets of this TOI are no longer genuine for the expected content
@@ -769,4 +792,17 @@ impl Engine for OrecvEngine {
         }
         self.call(Cmd::End, Some(o));
     }
+}
+
+/// every `e`-byte symbol of `written` (cut at the same offsets as the new content) is the symbol of the NEW content at that offset
+/// or an `e`-aligned symbol of the OLD content (a reused TOI: the old partition differs, so old symbols land at other offsets)
+fn is_symbol_mix(written: &[u8], old: &[u8], new: &[u8], e: usize) -> bool {
+    if written.len() != new.len() {
+        return false;
+    }
+    written.chunks(e).enumerate().all(|(c, chunk)| {
+        let off = c * e;
+        chunk == &new[off..off + chunk.len()]
+            || old.chunks(e).any(|oc| oc.starts_with(chunk) || (!oc.is_empty() && chunk.starts_with(oc)))
+    })
 }
